@@ -10,15 +10,35 @@ driver's `mkCfg` gives the same universe its key function / as-key / hashable /
 type-check tables.
 """
 import itertools
+import os
+import sys
+
+
+def _pin_hash_seed():
+    """Built-in set operands iterate in hash order and str hashes are randomised per process: pin them so that a
+    (tier, seed) pair and a replay file always mean the same run. Only when executed as the check CLI."""
+    if os.environ.get("PYTHONHASHSEED") is None and os.path.basename(sys.argv[0]) == "common.py":
+        os.environ["PYTHONHASHSEED"] = "0"
+        sys.stdout.flush()
+        sys.stderr.flush()
+        os.execv(sys.executable, [sys.executable] + sys.argv)
+
+
+_pin_hash_seed()
 
 PID = "C14"
 LEAN_TARGETS = ["SpecVerif.Props.C14"]
 AUDIT = [("SpecVerif.Props.C14", "SpecVerif.Props.C14")]
 DRIVER = "Drivers/C14.lean"
 REQUIRED_THEOREMS = [
-    "SpecVerif.Props.C14.wf_run",
-    "SpecVerif.Props.C14.abs_add",
-    "SpecVerif.Props.C14.enforce_rejects",
+    "SpecVerif.Props.C14." + n
+    for n in (
+        "inv_construct wf_run typed_never_admits bin_result_kind rbin_result_kind abs_add add_succeeds enforce_rejects "
+        "enforce_rejects_unchanged typed_rejects member_item_or_key lookup_sound lookup_complete lookup_absent discard_spec "
+        "discard_unamb remove_spec remove_member remove_absent len_iter pop_spec clear_spec failed_step_unchanged "
+        "ior_failure_prefix or_keys and_keys sub_keys sub_pyset_keys_partial sub_pyset_keys_full_fails le_keys "
+        "le_pyset_keys_partial eq_keys eq_pyset ior_keys isub_keys xor_keys"
+    ).split()
 ]
 RULE = (
     "cases = universe in {self-keyed str, tuple + key fn, keyed spec class, unhashable list + key fn, ambiguous int//10} x "
@@ -26,14 +46,18 @@ RULE = (
     "(add/discard/remove/contains/[]/get over every value of the universe incl. keys-as-arguments, ill-typed and unkeyable "
     "values; pop/clear/len/iter/keys/items; | & - ^ and reflected, rebinding, <= < >= > == isdisjoint and reflected, "
     "|= &= -= ^= incl. self-aliased, against KeyedSet (both flags, typed/untyped), built-in set and list operands of <= 2 "
-    "elements) from every initial set of <= N items with distinct keys (3 keys x 2 payloads; N=1 quick sample of 2, N=2 thorough), "
-    "each followed by keys/items reads; then seeded random sequences of <= 20 ops. A step is non-trivial when it changed the "
+    "elements) from every initial set of <= N items with distinct keys (3 keys x 2-3 payloads; quick: N=1 all ops + 3 sets of 2 items "
+    "with a sample of the operand ops; thorough: N=2, all ops for N<=1 and all value ops + half of the operand ops for N=2), "
+    "rebinding ops followed by adds that probe key function/flag/type of the new set; then seeded random sequences of <= 20 ops "
+    "(quick 8000, thorough 20000). A step is non-trivial when it changed the "
     "set, raised, returned a non-empty set / a hit; distinct = distinct (universe, typed, enforce, pre-state, op)"
 )
 EXHAUSTIVE = {"quick": False, "thorough": False}
 ASSUMPTIONS = [
     "key functions are pure; item equality is structural and reflexive (no NaN); hash agrees with == for every value put in a "
-    "built-in set (spec-class items, whose default hash is by identity, are interned per value so this holds)",
+    "built-in set (spec classes define == but keep the identity hash, so the harness's keyed spec class defines __hash__ "
+    "from its fields); PYTHONHASHSEED is pinned to 0 by the module when run through ./check so that set iteration order, "
+    "hence every run and replay, is reproducible",
     "the iteration order of a built-in set operand is an input of the model (read from the actual set object)",
     "lookup = subscription s[x] (accepts item or key); get(key) is the dict-style accessor and takes keys only (its parameter is "
     "named key); for an argument that is at once a present key and an item with a different present key (the ambiguity documented in the "
@@ -43,13 +67,19 @@ ASSUMPTIONS = [
     "a failing `|=`/`^=` keeps the elements added before the failing one (CPython MutableSet semantics, like set.update); "
     "'raises ValueError and changes nothing' is claimed for add() and for each individual element",
 ]
-OPEN_STATEMENTS = []
+OPEN_STATEMENTS = [
+    "sub_pyset_keys_full (s - <built-in set> is difference on keys for EVERY well-formed s) is refuted by "
+    "sub_pyset_keys_full_fails (witness: one unhashable item, `s - set()` raises TypeError): known finding "
+    "unhashable_items_vs_builtin_set; proved instead: sub_pyset_keys_partial / le_pyset_keys_partial (all items hashable)",
+    "key algebra of `^` and `<=`/`-` is stated for KeyedSet operands (xor_keys, le_keys, sub_keys) and for built-in sets via "
+    "sub_pyset_keys_partial / le_pyset_keys_partial / eq_pyset; `^` against a built-in set has only the general composition "
+    "(xorOp = (s - o) | (o - s) with sub_keys_general / or_keys), no dedicated key-level corollary",
+]
 
-UNIVERSES = ["self", "tuple", "spec", "unhash", "ambig"]
+UNIVERSES = ["self", "tuple", "spec", "unhash", "ambig", "bylen"]
 _It = None
 _KeyedSet = None
 _BaseTypeError = None
-_CACHE = {}
 
 
 def _kf_first(x):
@@ -60,7 +90,7 @@ def _kf_div(x):
     return x // 10
 
 
-KEYFN = {"self": None, "spec": None, "tuple": _kf_first, "unhash": _kf_first, "ambig": _kf_div}
+KEYFN = {"self": None, "spec": None, "tuple": _kf_first, "unhash": _kf_first, "ambig": _kf_div, "bylen": len}
 
 
 def setup():
@@ -76,10 +106,15 @@ def setup():
         key: Any
         p: int = 0
 
+        def __hash__(self):  # spec classes define == but keep object.__hash__; make hash agree with ==
+            return hash(("It", self.key, self.p))
+
+        def __bool__(self):  # items with payload 0 are FALSY (truthiness must never stand in for presence)
+            return self.p != 0
+
     _It = It
     _KeyedSet = KeyedSet
     _BaseTypeError = BaseTypeError
-    _CACHE.clear()
     _sanity()
 
 
@@ -93,28 +128,26 @@ def tok(v):
 
 
 def real_value(u, v):
-    """The Python value behind a triple (interned for the spec universe: spec-class items hash by identity)."""
+    """The Python value behind a triple (built afresh on every use: equal values are never identical objects)."""
     v = tuple(v)
-    ck = (u, v)
-    if ck in _CACHE:
-        return _CACHE[ck]
     k, p, b = v
     r = None
     if u == "self":
-        r = {0: lambda: f"k{k}", 1: lambda: k, 4: lambda: [f"k{k}"]}[b]()
+        r = {0: lambda: f"k{k}", 1: lambda: k, 4: lambda: [f"k{k}"], 6: lambda: ""}[b]()
     elif u == "tuple":
         r = {0: lambda: (f"k{k}", p), 1: lambda: [f"k{k}", p], 2: lambda: (k, p), 3: lambda: f"k{k}",
-             4: lambda: k, 5: lambda: ()}[b]()
+             4: lambda: k, 5: lambda: (), 6: lambda: ("", p)}[b]()
     elif u == "spec":
         r = {0: lambda: _It(key=f"k{k}", p=p), 1: lambda: ("notspec", k, p), 2: lambda: _It(key=k, p=p),
-             3: lambda: f"k{k}", 4: lambda: [k]}[b]()
+             3: lambda: f"k{k}", 4: lambda: [k], 6: lambda: _It(key="", p=p)}[b]()
     elif u == "unhash":
         r = {0: lambda: [f"k{k}", p], 1: lambda: (f"k{k}", p), 2: lambda: [k, p], 3: lambda: f"k{k}",
-             4: lambda: k, 5: lambda: []}[b]()
+             4: lambda: k, 5: lambda: [], 6: lambda: ["", p]}[b]()
     elif u == "ambig":
         r = {0: lambda: 10 * k + p, 4: lambda: f"k{k}"}[b]()
-    if u == "spec":
-        _CACHE[ck] = r
+    elif u == "bylen":
+        seq = [[], [p], [p, 0]][k] if b in (0, 1) else None
+        r = {0: lambda: seq, 1: lambda: tuple(seq), 3: lambda: k}[b]()
     return r
 
 
@@ -125,6 +158,8 @@ def _strnum(s):
 def unreal(u, o):
     """Back from a Python value to its triple."""
     if u == "self":
+        if o == "":
+            return (0, 0, 6)
         if isinstance(o, str):
             return (_strnum(o), 0, 0)
         if isinstance(o, int):
@@ -142,6 +177,8 @@ def unreal(u, o):
             return (_strnum(o[0]), o[1], 1)
         if isinstance(o[0], int):
             return (o[0], o[1], 2)
+        if o[0] == "":
+            return (0, o[1], 6)
         return (_strnum(o[0]), o[1], 0)
     if u == "spec":
         if isinstance(o, str):
@@ -152,17 +189,23 @@ def unreal(u, o):
             return (o[0], 0, 4)
         if isinstance(o.key, int):
             return (o.key, o.p, 2)
+        if o.key == "":
+            return (0, o.p, 6)
         return (_strnum(o.key), o.p, 0)
     if u == "ambig":
         if isinstance(o, str):
             return (_strnum(o), 0, 4)
         return (o // 10, o % 10, 0)
+    if u == "bylen":
+        if isinstance(o, int):
+            return (o, 0, 3)
+        return (len(o), o[0] if len(o) else 0, 0 if isinstance(o, list) else 1)
     raise ValueError(u)
 
 
 def enc_key(k):
     if isinstance(k, str):
-        return 3000 if k == "k" else _strnum(k)
+        return 3000 if k == "k" else 3001 if k == "" else _strnum(k)
     if isinstance(k, int):
         return 2000 + k
     if isinstance(k, tuple) and k and k[0] == "notspec":
@@ -174,11 +217,21 @@ KEYS = [0, 1, 2]
 
 
 def good_values(u):
+    """well-typed items; every universe has FALSY items and/or FALSY keys among them:
+    self "" (item and key), tuple/unhash key "", spec key "" and every p=0 item (falsy via __bool__),
+    ambig int 0 (item and key 0), bylen [] (item, key 0)"""
     if u == "self":
-        return [(k, 0, 0) for k in KEYS]
+        return [(k, 0, 0) for k in KEYS] + [(0, 0, 6)]
     if u == "ambig":
         return [(k, p, 0) for k in KEYS for p in (0, 1, 2)]
-    return [(k, p, 0) for k in KEYS for p in (0, 1)]
+    if u == "bylen":
+        return [(0, 0, 0), (1, 0, 0), (1, 1, 0), (2, 0, 0), (2, 1, 0)]
+    return [(k, p, 0) for k in KEYS for p in (0, 1)] + [(0, 0, 6), (0, 1, 6)]
+
+
+def key_id(v):
+    """identifies the key of a well-typed item token"""
+    return ("", 6) if v[2] == 6 else (v[0], 0)
 
 
 def other_values(u):
@@ -193,6 +246,8 @@ def other_values(u):
         return [(0, 1, 1), (1, 0, 1), (2, 1, 1), (0, 0, 2), (0, 0, 3), (1, 0, 3), (7, 0, 3), (0, 0, 4), (0, 0, 5)]
     if u == "ambig":
         return [(0, 0, 4), (3, 0, 0), (7, 1, 0)]
+    if u == "bylen":
+        return [(0, 0, 1), (1, 0, 1), (1, 1, 1), (2, 0, 1), (0, 0, 3), (1, 0, 3), (7, 0, 3)]
     raise ValueError(u)
 
 
@@ -227,6 +282,7 @@ def set_type(u):
         "spec": _KeyedSet[_It, str],
         "unhash": _KeyedSet[list, str],
         "ambig": _KeyedSet[int, int],
+        "bylen": _KeyedSet[list, int],
     }[u]
 
 
@@ -353,6 +409,33 @@ def perform(u, s, op):
     raise ValueError(op)
 
 
+class OpTimeout(Exception):
+    """`clear()` (a `while True: self.pop()` loop) did not terminate within the time limit"""
+
+
+def _on_alarm(signum, frame):
+    raise OpTimeout()
+
+
+def _can_loop(op):
+    return op[0] in ("clear", "inplaceSelf") or (op[0] == "inplace" and op[2][0] == "self")
+
+
+def perform_guarded(u, s, op):
+    """`perform_full`, with a 2 s limit on the operations that run CPython's unbounded `clear` loop"""
+    if not _can_loop(op):
+        return perform_full(u, s, op)
+    import signal
+
+    old = signal.signal(signal.SIGALRM, _on_alarm)
+    signal.setitimer(signal.ITIMER_REAL, 2.0)
+    try:
+        return perform_full(u, s, op)
+    finally:
+        signal.setitimer(signal.ITIMER_REAL, 0)
+        signal.signal(signal.SIGALRM, old)
+
+
 class OperandError(Exception):
     def __init__(self, name):
         self.name = name
@@ -415,8 +498,8 @@ def op_line(u, op):
         return f"{name} {tok(op[1])}"
     if name in ("pop", "clear", "keys", "items", "len", "iter"):
         return name
-    if name == "inplaceSelf":
-        return f"inplaceSelf {op[1]}"
+    if name == "inplaceSelf" or (name == "inplace" and op[2][0] == "self"):
+        return f"inplaceSelf {op[1]}"  # `s <op>= s`: CPython tests `it is self`
     return f"{name} {op[1]} {operand_tok(u, op[2])}"
 
 
@@ -439,7 +522,7 @@ def real_lines(case):
         out.append(f"err {err_name(e)} ;; " + show_ks(u, s))
     for op in case["ops"]:
         try:
-            s, kind, payload = perform_full(u, s, op)
+            s, kind, payload = perform_guarded(u, s, op)
             o = fmt(u, kind, payload)
         except OperandError as e:
             o = "operand-error " + e.name
@@ -462,6 +545,8 @@ def o_key(u, x):
         return x[0]
     if u == "ambig":
         return x // 10
+    if u == "bylen":
+        return len(x)
     if isinstance(x, _It):
         return x.key
     hash(x)
@@ -489,7 +574,8 @@ def o_keyraises(u, x):
 
 
 def o_welltyped(u, x):
-    T, K = {"self": (str, str), "tuple": (tuple, str), "spec": (_It, str), "unhash": (list, str), "ambig": (int, int)}[u]
+    T, K = {"self": (str, str), "tuple": (tuple, str), "spec": (_It, str), "unhash": (list, str), "ambig": (int, int),
+            "bylen": (list, int)}[u]
     return isinstance(x, T) and not isinstance(x, bool) and o_haskey(u, x) and isinstance(o_key(u, x), K)
 
 
@@ -544,7 +630,7 @@ class Ref:
 
 
 def same(a, b):
-    """the same value (items of the non-spec universes are rebuilt on every use, so identity is too strong)"""
+    """the same value (values are rebuilt on every use, so identity is too strong)"""
     return a is b or (type(a) is type(b) and a == b)
 
 
@@ -580,6 +666,7 @@ def oracle(case):
     init = [real_value(u, v) for v in case["init"]]
     # construction = successive adds (typed construction may refuse with any TypeError-like class, at any point)
     exp_fail = None
+    junk_init = any(o_keyraises(u, x) for x in init)
     for x in init:
         e = Ref.add_expect(ref, x)
         if typed and not o_welltyped(u, x):
@@ -594,7 +681,9 @@ def oracle(case):
         if exp_fail is not None:
             viol.append(f"construction from {case['init']} succeeded, expected {sorted(exp_fail)}")
     except _catch() as e:
-        if exp_fail is None:
+        if junk_init:
+            pass  # the user key function raised: outside the property's universe
+        elif exp_fail is None:
             viol.append(f"construction from {case['init']} raised {err_name(e)}")
         elif err_name(e) not in exp_fail and not (typed and err_name(e) in ("TypeError", "ValueError")):
             viol.append(f"construction raised {err_name(e)}, expected {sorted(exp_fail)}")
@@ -611,7 +700,7 @@ def oracle(case):
         before = _snapshot(s)
         s_before = s
         try:
-            s_new, kind, payload = perform_full(u, s, op)
+            s_new, kind, payload = perform_guarded(u, s, op)
             raised = None
         except OperandError:
             continue
@@ -820,6 +909,15 @@ def _judge_binary(u, ref, s, op, raised, kind, payload, unchanged, tag, viol, re
     def keys_of(r):
         return set(r.keys())
 
+    # known finding: `item in <built-in set>` with an unhashable item of the receiver raises TypeError
+    f1 = ""
+    if raised == "TypeError" and okind == "S" and which in ("sub", "xor", "le") and any(
+        not o_hashable(v) for v in ref.d.values()
+    ):
+        f1 = " " + F1_MARK
+        if not JUDGE_UNHASHABLE_VS_SET:
+            return
+
     if name in ("bin", "rbin", "rebind") and which in LISTED_BIN:
         listed_unhashable = False
         if raised is not None:
@@ -831,7 +929,7 @@ def _judge_binary(u, ref, s, op, raised, kind, payload, unchanged, tag, viol, re
             if illtyped:
                 acceptable.add("TypeError")
             if raised not in acceptable:
-                viol.append(f"{tag}: raised {raised}; set algebra on keys gives a result")
+                viol.append(f"{tag}: raised {raised}; set algebra on keys gives a result{f1}")
             return
         r = payload if name != "rebind" else None
         if name == "rebind":
@@ -861,7 +959,7 @@ def _judge_binary(u, ref, s, op, raised, kind, payload, unchanged, tag, viol, re
         if okind == "L":
             return
         if raised is not None:
-            viol.append(f"{tag}: raised {raised}; set algebra on keys gives an answer")
+            viol.append(f"{tag}: raised {raised}; set algebra on keys gives an answer{f1}")
             return
         if which == "le" and bykey:
             want = (skeys <= set(okeys)) if name == "cmp" else (set(okeys) <= skeys)
@@ -895,14 +993,16 @@ def _judge_binary(u, ref, s, op, raised, kind, payload, unchanged, tag, viol, re
 # ---------------------------------------------------------------------------
 
 
+F1_MARK = "[unhashable item of the receiver asked `in` a built-in set]"
+# Reading switch: True = the TypeError described by F1_MARK is a violation of "set algebra on keys" (reported as the
+# known finding `unhashable_items_vs_builtin_set`); False = accepted as Python's own refusal to hash the item.
+JUDGE_UNHASHABLE_VS_SET = True
+
+
 def _is_unhashable_vs_set(case, violation):
-    """receiver holds an unhashable item, the other operand is a built-in set, the operator asks `item in <set>`"""
-    if violation == ["correspondence"]:
-        return False
-    txt = " ".join(violation)
-    return case["universe"] in ("unhash", "tuple", "spec", "self") and "raised TypeError" in txt and all(
-        ("raised TypeError" in v and ("'S'" in v)) for v in violation
-    )
+    """every message of the violation is the TypeError of `- ^ <=` between a receiver holding an unhashable item
+    and a built-in set operand (marked by the oracle, which checks exactly that situation)"""
+    return bool(violation) and violation != ["correspondence"] and all(F1_MARK in v for v in violation)
 
 
 KNOWN_MATCHERS = {"unhashable_items_vs_builtin_set": _is_unhashable_vs_set}
@@ -924,7 +1024,7 @@ def initial_states(u, maxlen):
     states = [[]]
     for n in range(1, maxlen + 1):
         for combo in itertools.permutations(good, n):
-            if len({x[0] for x in combo}) == n:
+            if len({key_id(x) for x in combo}) == n:
                 states.append([list(x) for x in combo])
     return states
 
@@ -934,8 +1034,13 @@ def operand_pool(u, size2=True):
     good, oth = good_values(u), other_values(u)
     lists = [[]] + [[x] for x in good + oth]
     if size2:
-        g = good[:4] if u != "ambig" else [good[0], good[1], good[3], good[4]]
+        g = good[:3] + good[-1:] if u != "ambig" else [good[0], good[1], good[3], good[4]]
+        if u == "bylen":
+            g = good[:4]
         lists += [[a, b] for a in g for b in g if a != b]
+        six = [v for v in good if v[2] == 6]
+        if len(six) == 2:
+            lists += [six, six[::-1]]  # two unequal items under the same falsy key
         lists += [[good[0], oth[0]], [oth[-1], good[1]]]
     return lists
 
@@ -1022,7 +1127,7 @@ def random_case(u, rng, maxops):
     enforce = rng.random() < 0.5
     init = []
     for v in rng.sample(good, rng.randint(0, min(3, len(good)))):
-        if v[0] not in {y[0] for y in init} or rng.random() < 0.15:
+        if key_id(v) not in {key_id(y) for y in init} or rng.random() < 0.15:
             init.append(list(v))
     if rng.random() < 0.05:
         init.append(list(rng.choice(oth)))
@@ -1052,10 +1157,10 @@ def gen_cases(tier, rng):
                     ops = ops_all
                     if not thorough:
                         ops = [o for o in ops_all if o[0] in ARG_OPS or len(o) == 1] + rng.sample(
-                            ops_all, min(len(ops_all), 110 if len(st) else 40)
+                            ops_all, min(len(ops_all), 300 if len(st) else 60)
                         )
                     elif len(st) == 2:
-                        keep = max(1, len(ops_all) // 3)
+                        keep = max(1, len(ops_all) // 2)
                         ops = [o for o in ops_all if o[0] in ARG_OPS or len(o) == 1] + rng.sample(ops_all, keep)
                     for op in ops:
                         tail = READS if op[0] in ("rebind", "inplace", "inplaceSelf") else []
@@ -1067,7 +1172,7 @@ def gen_cases(tier, rng):
                             "universe": u, "typed": typed, "enforce": enforce, "init": st,
                             "ops": [op] + tail, "origin": "exhaustive-single",
                         }
-    nrand = 12000 if thorough else 1500
+    nrand = 20000 if thorough else 8000
     for _ in range(nrand):
         yield random_case(rng.choice(UNIVERSES), rng, 20)
 
@@ -1122,7 +1227,7 @@ def tags(case, real):
 
 
 MANIFEST_ENTRY = {
-    "level_text": "Lean 4 proof that the KeyedSet Impl model (insertion-ordered key->item dict, enforce flag, typed variant; add, discard, __contains__, __getitem__, get, keys, items, len, iter, __eq__ and every Set/MutableSet mixin of CPython 3.12 over them: | & - ^ and reflected, <= < >= > isdisjoint, |= &= -= ^=, remove, pop, clear, _from_iterable) behaves as a finite map key -> most recently added item under every operation sequence: unique keys and item-stored-under-its-own-key are invariants, add updates the map at the item's key, enforce rejects an unequal item with ValueError leaving the state unchanged, membership/lookup/discard/remove resolve an item or its key, len/iteration see one item per key, | & - ^ <= == |= -= compute union/intersection/difference/symmetric difference/inclusion/map equality on keys, results keep key function, flag and type parameters, a parameterised set never admits an ill-typed item or key (invariant over all op sequences incl. rebinding to operator results), and failing operations leave the state unchanged; for any value/key types, key function and type predicates. The model is tied to /repo on every run by executing the same operation sequences on spec_classes.types.KeyedSet and on the model (every single operation from every small set in 5 universes x typed x enforce, operands KeyedSet/built-in set/list on either side, then random sequences) and comparing result, exception class and contents after every step; an independent reference-dict oracle written from the property text judges every case.",
+    "level_text": "Lean 4 proof that the KeyedSet Impl model (insertion-ordered key->item dict, enforce flag, typed variant; add, discard, __contains__, __getitem__, get, keys, items, len, iter, __eq__ and every Set/MutableSet mixin of CPython 3.12 over them: | & - ^ and reflected, <= < >= > isdisjoint, |= &= -= ^=, remove, pop, clear, _from_iterable) behaves as a finite map key -> most recently added item under every operation sequence: unique keys and item-stored-under-its-own-key are invariants, add updates the map at the item's key, enforce rejects an unequal item with ValueError leaving the state unchanged, membership/lookup/discard/remove resolve an item or its key, len/iteration see one item per key, | & - ^ <= == |= -= compute union/intersection/difference/symmetric difference/inclusion/map equality on keys (for operands that agree on the items of common keys; against a built-in set provided the receiver's items are hashable — the full statement is refuted by a decided witness, open known finding unhashable_items_vs_builtin_set), results keep key function, flag and type parameters, a parameterised set never admits an ill-typed item or key (invariant over all op sequences incl. rebinding to operator results), and failing operations leave the state unchanged; for any value/key types, key function and type predicates. The model is tied to /repo on every run by executing the same operation sequences on spec_classes.types.KeyedSet and on the model (every single operation from every small set in 5 universes x typed x enforce, operands KeyedSet/built-in set/list on either side, then random sequences) and comparing result, exception class and contents after every step; an independent reference-dict oracle written from the property text judges every case.",
     "level_note": "Trusted: Lean kernel; axioms propext/Classical.choice/Quot.sound only; the hand-written model (incl. its transcription of CPython's _collections_abc Set/MutableSet mixins) and the correspondence harness; key functions pure; item equality structural and consistent with hash; iteration order of built-in set operands is an input. Key algebra is proved for operands that agree on common keys (or a non-enforcing KeyedSet operand); the documented key/item ambiguity is modelled and tied but not given set semantics. The theorems are about the model; the per-run correspondence is what ties them to the code.",
     "technique": "Lean 4 invariant + refinement (abstraction to a finite map) proof over a hand-written model; differential correspondence against the real KeyedSet; reference-dict oracle",
 }
